@@ -73,6 +73,10 @@ class Pattern(Serialize, ABC):
             value = ('(?%s:%s)' % (f, value))
         return value
 
+    def _deserialize(self):
+        # The flags are serialized as a list. They have to be a set again (hashing, and subset tests in the lexer)
+        self.flags = frozenset(self.flags)
+
 
 class PatternStr(Pattern):
     __serialize_fields__ = 'value', 'flags', 'raw'
